@@ -398,31 +398,51 @@ async fn drive(sim: &kernel::Sim, case: &Case) -> RunResult {
                 ));
             }
             let frames = io::chan_drain(&outbox);
-            // cross-check against the reference segmenter + framer
-            let (segs, next) = reftr::segment(&data, seq);
-            seq = next;
-            let expect: Vec<Vec<u8>> = segs
-                .iter()
-                .map(|sg| {
-                    reflink::build_frame(&RefFrame {
-                        ctrl: sender_ctrl,
-                        dest: case.reader_addr,
-                        src: case.sender_addr[s],
-                        payload: sg.to_payload(),
-                    })
-                })
-                .collect();
+            // what the writer put on the wire for this fragment must be a well-formed segment series that carries exactly
+            // this fragment: every octet part of a correct link frame with the right control and addresses, every segment with
+            // 1..=249 octets of data, and the reference reassembler gets the fragment - and nothing else - out of it. (How the
+            // fragment is cut into segments, and where the sequence numbers start, is the writer's business.)
+            let _ = seq;
             let got: Vec<Vec<u8>> = frames.into_iter().map(|x| x.1).collect();
-            if got != expect && seg_violation.is_none() {
+            let stream: Vec<u8> = got.iter().flatten().copied().collect();
+            let parsed = reflink::deframe(&stream, false);
+            let mut problem: Option<String> = None;
+            if parsed.first_error.is_some() {
+                problem = Some(format!("framing error {:?}", parsed.first_error));
+            }
+            let mut reasm = reftr::Reassembler::new(4096);
+            let mut out: Vec<(u16, Vec<u8>)> = Vec::new();
+            for (_, fr) in &parsed.frames {
+                if fr.ctrl != sender_ctrl || fr.dest != case.reader_addr || fr.src != case.sender_addr[s] {
+                    problem.get_or_insert(format!("frame with control {:#04x} from {} to {}", fr.ctrl, fr.src, fr.dest));
+                }
+                match reftr::Segment::parse(&fr.payload) {
+                    Some(seg) if !seg.data.is_empty() && seg.data.len() <= 249 => {
+                        if let Some(done) = reasm.push(fr.src, &seg) {
+                            out.push(done);
+                        }
+                    }
+                    _ => {
+                        problem.get_or_insert(format!("segment with {} octets of payload", fr.payload.len()));
+                    }
+                }
+            }
+            if problem.is_none() && out != vec![(case.sender_addr[s], data.clone())] {
+                problem = Some(format!(
+                    "the segments reassemble to {:?} fragment(s) of {:?} octets",
+                    out.len(),
+                    out.iter().map(|o| o.1.len()).collect::<Vec<_>>()
+                ));
+            }
+            if let (Some(pr), true) = (problem, seg_violation.is_none()) {
                 seg_violation = Some(Violation::new(
                     "C08/segmentation-differs",
-                    format!("len={} frames={}vs{}", data.len() % 249, got.len(), expect.len()),
+                    format!("len={} frames={}", data.len() % 249, got.len()),
                     format!(
-                        "writer produced {} frames, reference segmenter {} for a {}-byte fragment starting at seq {}",
-                        got.len(),
-                        expect.len(),
+                        "what the writer produced for a {}-byte fragment ({} frames) is not a well-formed segment series carrying it: {}",
                         data.len(),
-                        (seq as i32 - segs.len() as i32).rem_euclid(64)
+                        got.len(),
+                        pr
                     ),
                 ));
             }
